@@ -63,6 +63,9 @@ impl UrlPath {
             }
 
             if _char == ']' && previous_char.is_some() && previous_char.unwrap() == ']' {
+                if !is_opened_token {
+                    return Err("at least one extra ] char".to_string());
+                }
                 is_opened_token = false;
                 if _buffer.len() < 2 {
                     return Err("at least one extra ] char".to_string());
@@ -82,6 +85,10 @@ impl UrlPath {
             }
 
             previous_char = Some(_char.clone());
+        }
+
+        if is_opened_token {
+            return Err("token is not closed by ]]".to_string());
         }
 
         if _buffer.len() != 0 {
